@@ -1,20 +1,194 @@
 (* C11 — channels and signals: property theorems (statements only; proofs in
-   ChanKProofs.v, UChanProofs.v, BChanProofs.v, MChanProofs.v). *)
+   ChanKBase.v / ChanKProofs.v (signal protocol), UChanProofs.v (unbounded MPSC
+   channel), BChanProofs.v (bounded channel), ChanKStrand.v (no stranded
+   receiver), MChanProofs.v (multi channel)).
+
+   Models: ChanK.M is the T1K client for include/fiber_signal.h and
+   include/fiber_channel.h; Signal.init progs = UChan.init progs = ChanK.init 2
+   progs and BChan.init k progs = ChanK.init (2^k) progs are the same machine
+   with their own program decoders, so every theorem below, stated for
+   ChanK.init size progs with arbitrary programs, covers the three lock-step
+   models.  MChan.M is the T1K client for include/fiber_multi_channel.h.
+
+   signal_single_waiter (documented discipline of the headers) appears as the
+   hypothesis [single_waiter w progs]: only fiber w ever calls
+   fiber_signal_wait, directly or through a blocking receive; all other fibers
+   may raise / send / try_receive as they like. *)
 From Coq Require Import List ZArith Lia Bool Arith.
-From LF Require Import Conc T1K ChanK Signal UChan BChan MChan MChanProofs.
+From LF Require Import Conc T1K ChanK ChanKBase ChanKProofs.
+From LF Require Signal UChan BChan MChan UChanProofs BChanProofs MChanProofs.
 Import ListNotations.
 Local Open Scope Z_scope.
 
-(* ---- multi channel: the stranding question (finding F-C11) ----
-   Full statement that does NOT hold:
+(* ================= 1. the signal ================= *)
+
+(* The word is NO_WAITER, RAISED or the single waiter (signal_single_waiter as
+   an invariant of the word). *)
+Theorem signal_word_domain :
+  forall w size progs (s : ChanK.st),
+    single_waiter w progs -> reachable ChanK.M (ChanK.init size progs) s ->
+    word s = NO_WAITER \/ word s = RAISED \/ word s = fname w.
+Proof. intros w size progs s H R. exact (j_dom w s (reachable_J w size progs s H R)). Qed.
+Print Assumptions signal_word_domain.
+
+(* No lost raise.  [registered w s]: w's registering CAS succeeded and w has not
+   been resumed yet (it is on its way to sleep, or asleep).  If the word no
+   longer names w — some raise has exchanged it after the CAS — then a raiser
+   r <> w is committed to waking w (it holds w and sits between its exchange
+   and its schedule(w)), or the wake-up has already been delivered (w is
+   runnable again).  Together with [raise_seen] (a raise that exchanged before
+   the CAS makes the CAS fail: that wait returns without sleeping) and
+   [raise_remembered] (a RAISED word stays RAISED until the waiter consumes it;
+   RAISED -> RAISED coalesces) this is "seen or remembered, never lost". *)
+Theorem signal_no_lost_raise :
+  forall w size progs (s : ChanK.st),
+    single_waiter w progs -> reachable ChanK.M (ChanK.init size progs) s ->
+    (registered w s -> word s <> fname w ->
+       (exists r, r <> w /\ committed s r w) \/ wake_delivered w s) /\
+    (forall a p k, stk s w = [CCasC c_waiter NO_WAITER (fname w) 3; FC (KWCas a p k)] ->
+       word s <> NO_WAITER ->
+       stk (fst (ChanK.step s w)) w = [CStoreC c_waiter NO_WAITER 5; FC (KWEnd a p k)]) /\
+    (forall t, t <> w -> no_claims s -> word s = RAISED -> word (fst (ChanK.step s t)) = RAISED).
+Proof.
+  intros w size progs s H R. pose proof (reachable_J w size progs s H R) as Hj.
+  split; [|split].
+  - intros A B. exact (no_lost_raise w s Hj (idle_beyond_reachable size progs s R) A B).
+  - intros a p k E W. exact (raise_seen s w a p k E W).
+  - intros t Ht N W. exact (raise_remembered w s t Hj Ht N W).
+Qed.
+Print Assumptions signal_no_lost_raise.
+
+(* The C01-style ordering: a raiser reaches "old->state = READY; schedule(old)"
+   only when old = w, w's maintenance has written the ready-to-wake marker and
+   w is asleep (state WAITING, blocked): never woken before asleep. *)
+Theorem signal_wake_after_sleep :
+  forall w size progs (s : ChanK.st) r f p k,
+    single_waiter w progs -> reachable ChanK.M (ChanK.init size progs) s ->
+    stk s r = [FStWrite f ST_READY; FC (KRRdy f p k)] ->
+    f = w /\ r <> w /\
+    (exists a p' k', stk s w = [Asleep; YLoop; FC (KWSlept a p' k')]) /\
+    cell (mem s) (c_scr w) = READY_TO_WAKE /\ blocked (mem s) w = true /\ fstate (mem s) w = ST_WAITING.
+Proof.
+  intros w size progs s r f p k H R E.
+  exact (wake_after_sleep w s r f p k (reachable_J w size progs s H R) E).
+Qed.
+Print Assumptions signal_wake_after_sleep.
+
+(* ================= 2. unbounded MPSC channel ================= *)
+
+(* History theorem with ghost logs (instrumented machine UChanProofs.ist, erased
+   by UChanProofs.base to ChanK states: uchan_ireach_sound / _complete):
+   xlog = (sender, message) in the order of the tail exchanges, rlog = messages
+   in the order the receiver returns them.  The received sequence is a prefix
+   of the exchange order; each sender's exchanges are its sends in program
+   order; so every received message was sent, per-sender order is preserved,
+   and (distinct values) nothing is received twice. *)
+Theorem chan_exactly_once_in_sender_order :
+  forall w size progs x,
+    UChanProofs.uchan_progs_ok w progs -> UChanProofs.ireach size progs x ->
+    (exists rest, map snd (UChanProofs.xlog x) = UChanProofs.rlog x ++ rest) /\
+    (forall t, exists rest, UChanProofs.usends (nth t progs []) =
+                            UChanProofs.sender_proj t (UChanProofs.xlog x) ++ rest) /\
+    (forall v, In v (UChanProofs.rlog x) ->
+       exists t, In (t, v) (UChanProofs.xlog x) /\ In v (UChanProofs.usends (nth t progs []))) /\
+    (UChanProofs.distinct_values progs ->
+       NoDup (map snd (UChanProofs.xlog x)) /\ NoDup (UChanProofs.rlog x)) /\
+    reachable ChanK.M (ChanK.init size progs) (UChanProofs.base x).
+Proof.
+  intros w size progs x H R. repeat split.
+  - exact (UChanProofs.uchan_fifo w size progs x H R).
+  - intros t. exact (UChanProofs.uchan_sender_order w size progs x t H R).
+  - intros v Hv. exact (UChanProofs.uchan_received_was_sent w size progs x v H R Hv).
+  - apply (UChanProofs.uchan_no_duplicate w size progs x H H0 R).
+  - apply (UChanProofs.uchan_no_duplicate w size progs x H H0 R).
+  - exact (UChanProofs.uchan_ireach_sound size progs x R).
+Qed.
+Print Assumptions chan_exactly_once_in_sender_order.
+
+(* ================= 3. bounded channel ================= *)
+
+(* high - low never exceeds the capacity; a sender writes its slot only while
+   the slot is NULL (and no other sender is about to write the same slot); the
+   receiver clears exactly the slot of index low, which holds the non-NULL
+   message it returns. *)
+Theorem bounded_capacity :
+  forall size w progs (s : ChanK.st), 0 < size -> BChanProofs.bchan_progs_ok w progs ->
+    reachable ChanK.M (ChanK.init size progs) s ->
+    let high := cell (mem s) c_high in let low := cell (mem s) c_low in
+    (0 <= low /\ 0 <= high - low <= size) /\
+    (forall t c v p k, stk s t = [CWrite c v; FC (KBWrite p k)] ->
+       cell (mem s) c = 0 /\ v <> 0 /\
+       (exists i, low <= i < high /\ c = c_buf (bidx size i)) /\
+       (forall u v' p' k', stk s u = [CWrite c v'; FC (KBWrite p' k')] -> u = t)) /\
+    (forall t c v m l p k, stk s t = [CWrite c v; FC (KQClear m l p k)] ->
+       t = w /\ l = low /\ low < high /\ c = c_buf (bidx size low) /\ v = 0 /\
+       cell (mem s) c = m /\ m <> 0).
+Proof. exact BChanProofs.bchan_capacity. Qed.
+Print Assumptions bounded_capacity.
+
+(* clog = (sender, message) in the order of the successful high CAS, rlog =
+   messages in the order of the receiver's low stores: rlog is a prefix of clog,
+   the unreceived rest is exactly high - low long, per-sender order = program
+   order, and the value a receive returns is the one claimed for its index. *)
+Theorem bounded_exactly_once_in_order :
+  forall size w progs (x : BChanProofs.bist), 0 < size -> BChanProofs.bchan_progs_ok w progs ->
+    BChanProofs.bireach size progs x ->
+    let s := BChanProofs.bbase x in
+    let high := cell (mem s) c_high in let low := cell (mem s) c_low in
+    (exists rest, map snd (BChanProofs.bclog x) = BChanProofs.brlog x ++ rest /\
+                  Z.of_nat (length rest) = high - low) /\
+    Z.of_nat (length (BChanProofs.bclog x)) = high /\ Z.of_nat (length (BChanProofs.brlog x)) = low /\
+    Forall (fun v => v <> 0) (map snd (BChanProofs.bclog x)) /\
+    (forall t, exists pend, BChanProofs.bsends (nth t progs []) =
+                            BChanProofs.bsent_by t (BChanProofs.bclog x) ++ pend) /\
+    (forall t c v mo m p k, stk s t = [CStoreC c v mo; FC (KQStore m p k)] ->
+       t = w /\ v = low + 1 /\
+       nth_error (map snd (BChanProofs.bclog x)) (length (BChanProofs.brlog x)) = Some m).
+Proof. exact BChanProofs.bchan_fifo. Qed.
+Print Assumptions bounded_exactly_once_in_order.
+
+(* ================= 4. multi channel ================= *)
+
+(* The stranding question (finding F-C11).  Full statement that does NOT hold:
      multichan_no_stranded : forall k progs s,
        reachable MChan.M (MChan.init k progs) s -> ~ stranded s.
    It is refuted on the faithful model: capacity 2, senders 0,1,2 x 2 messages,
    receivers 3,4 x 3 messages, the 239-step schedule MChanProofs.strand_sched
-   (replayed on the real code: corpus/C11.txt, identical trace). *)
+   (replayed on the real code: corpus/C11.txt, identical trace): buffer empty,
+   sender 2 and receiver 4 both asleep in the one waiter list, nobody runnable. *)
 Theorem multichan_no_stranded_refuted :
-  exists k progs s, reachable MChan.M (MChan.init k progs) s /\ stranded s.
+  exists k progs s, reachable MChan.M (MChan.init k progs) s /\ MChanProofs.stranded s.
 Proof.
-  exists 1%nat, strand_progs, strand_state. split; [exact strand_reachable | exact strand_stranded].
+  exists 1%nat, MChanProofs.strand_progs, MChanProofs.strand_state.
+  split; [exact MChanProofs.strand_reachable | exact MChanProofs.strand_stranded].
 Qed.
 Print Assumptions multichan_no_stranded_refuted.
+
+(* ================= non-vacuity ================= *)
+Definition ex_sig_progs : list (list cop) := [[OWait]; [ORaise]].
+Definition ex_sig_state sch := fst (run_sched ChanK.M (ChanK.init 2 ex_sig_progs) sch).
+
+Lemma ex_sig_single : single_waiter 0 ex_sig_progs.
+Proof. intros t Ht. destruct t as [|[|t]]; [congruence | reflexivity | destruct t; reflexivity]. Qed.
+
+(* the waiter has registered (3 steps), the raiser has exchanged (2 steps): registered,
+   the word no longer names the waiter, raiser 1 is committed *)
+Example ex_committed :
+  let s := ex_sig_state [0;0;0;1;1]%nat in
+  reachable ChanK.M (ChanK.init 2 ex_sig_progs) s /\ registered 0 s /\ word s <> fname 0 /\ committed s 1 0.
+Proof. split; [apply run_sched_reachable; constructor | vm_compute; repeat split; discriminate]. Qed.
+
+(* ... and after the waiter's maintenance has written the marker the raiser reaches
+   the READY write: the hypothesis of signal_wake_after_sleep is met *)
+Example ex_ready :
+  let s := ex_sig_state [0;0;0;1;1;0;0;0;0;0;0;0;1;1]%nat in
+  reachable ChanK.M (ChanK.init 2 ex_sig_progs) s /\
+  exists p k, stk s 1%nat = [FStWrite 0%nat ST_READY; FC (KRRdy 0%nat p k)].
+Proof. split; [apply run_sched_reachable; constructor | vm_compute; eauto]. Qed.
+
+(* a raise before the CAS: the CAS fails *)
+Example ex_seen :
+  let s := ex_sig_state [0;0;1;1]%nat in
+  reachable ChanK.M (ChanK.init 2 ex_sig_progs) s /\ word s = RAISED /\
+  exists a p k, stk s 0%nat = [CCasC c_waiter NO_WAITER (fname 0) 3; FC (KWCas a p k)].
+Proof. split; [apply run_sched_reachable; constructor | vm_compute; split; eauto]. Qed.
